@@ -433,6 +433,11 @@ def r4(ctx):
         ctx.check(not others, "C06.R4", "the drop set is only written under DROP", f.where,
                   ctx.construct(f, text="drop_rows written outside DROP"),
                   f"drop_rows is written outside the DROP branch: {others}")
+    # a failure of the null search itself (a null constant, a container it cannot inspect) is reported, never swallowed
+    handled = [o for o in outs if any(pol and norm(c).startswith("except_") for c, pol in o.conds)]
+    ctx.check(all(o.kind == "raise" for o in handled), "C06.R4", "an error raised while searching for nulls is re-raised", f.where, ctx.construct(f, text="handler re-raises"),
+              "an exception handler of _check_for_nulls returns normally: a value whose nulls cannot be determined (or a null constant) is then treated as free "
+              "of nulls — rows that should be dropped or reported are kept silently")
     unknown = under(None)
     ctx.check(bool(unknown) and all(o.kind == "raise" for o in unknown), "C06.R4", "an unknown policy is rejected", f.where, ctx.construct(f, text="unknown policy"),
               "a value of na_action that is none of the NAAction members must raise, not fall through to another policy's behaviour")
